@@ -95,7 +95,15 @@ class ApplicationFileScanner:
                 did_error_scanning_files = True
                 break
 
-        sorted_files_to_parse = sorted(files_to_parse)
+        # Different spellings of the same path (`a.md`, `./a.md`, `docs/../a.md`)
+        # select one file; keep the spelling that sorts first.
+        sorted_files_to_parse = []
+        selected_paths: Set[str] = set()
+        for next_file in sorted(files_to_parse):
+            absolute_path = os.path.abspath(next_file)
+            if absolute_path not in selected_paths:
+                selected_paths.add(absolute_path)
+                sorted_files_to_parse.append(next_file)
         LOGGER.info("Number of files found: %d", len(sorted_files_to_parse))
         did_only_list_files = ApplicationFileScanner.__handle_main_list_files(
             only_list_files, sorted_files_to_parse, handle_output, handle_error
